@@ -128,7 +128,7 @@ def main(chk, replay_file):
         J("reset_window.cover", unit, "h_reset_window", unwind=uw, flags=wl, defines=["COVER"], kind="cover", cover=True, checks=[]),
     ]
     if tier == "thorough":
-        jobs.append(J("reset_window.contract@cvc5", unit, "h_reset_window", unwind=uw, flags=wl, solver=["--cvc5"], timeout=3000, note="second back end"))
+        jobs.append(J("reset_window.contract@kissat", unit, "h_reset_window", unwind=uw, flags=wl, solver=["--external-sat-solver", "kissat"], stop_on_fail=True, timeout=3000, note="second back end: kissat (CBMC's SMT2 conversion aborts with map::at on the Verilator units, so cvc5/z3 are unusable here)"))
     chk.jobs = jobs
     hv.run_jobs(jobs, chk.out)
     exe = native(chk)
